@@ -97,8 +97,44 @@ def prepared(prog: Program, fn: FuncInfo) -> FuncNode:
     node = inline_straightline(prog, fn, inline_helpers(prog, fn))
     if hoist_block_helpers(prog, fn, node):
         node = inline_straightline(prog, fn, inline_helpers(prog, fn, node=node))
+    dewalrus_comprehensions(node)
     fold_list_loops(node)
     return node
+
+
+def dewalrus_comprehensions(node: ast.AST) -> None:
+    """`[b for c in ids if (b := f(c)) is not None]` -> `[f(c) for c in ids if f(c) is not None]`: a walrus in
+    a comprehension condition binds per element, so the name is replaced by its value in the later
+    conditions, the later generators and the element expression (analysis-only: the call is written
+    twice, it is evaluated once).  In place."""
+    class T(ast.NodeTransformer):
+        def comp(self, n: Any) -> ast.AST:
+            self.generic_visit(n)
+            if not any(isinstance(w, ast.NamedExpr) for g in n.generators for c in g.ifs for w in ast.walk(c)):
+                return n
+            env: dict[str, ast.AST] = {}
+            for g in n.generators:
+                g.iter = subst(g.iter, env)
+                conds = []
+                for c in g.ifs:
+                    c = subst(c, env)
+                    while True:
+                        ws = [w for w in ast.walk(c) if isinstance(w, ast.NamedExpr) and isinstance(w.target, ast.Name)
+                              and not any(isinstance(m, ast.NamedExpr) for m in ast.walk(w.value))]
+                        if not ws:
+                            break
+                        env[ws[0].target.id] = ws[0].value
+                        c = _replace(c, ws[0], copy.deepcopy(ws[0].value))
+                    conds.append(c)
+                g.ifs = conds
+            if isinstance(n, ast.DictComp):
+                n.key, n.value = subst(n.key, env), subst(n.value, env)
+            else:
+                n.elt = subst(n.elt, env)
+            return n
+        visit_ListComp = visit_GeneratorExp = visit_SetComp = visit_DictComp = comp  # noqa: N815
+    T().visit(node)
+    ast.fix_missing_locations(node)
 
 
 def path_follower(prog: Program, fn: FuncInfo, stop: tuple[str, ...] = ()) -> Any:
@@ -115,10 +151,49 @@ def path_follower(prog: Program, fn: FuncInfo, stop: tuple[str, ...] = ()) -> An
             return None
         if id(t) not in cache:
             c = copy.deepcopy(t)
+            dewalrus_comprehensions(c)
             fold_list_loops(c)
             cache[id(t)] = c
         return cache[id(t)]
     return follow
+
+
+def _child_suites(s: ast.stmt) -> list[list[ast.stmt]]:
+    """The statement lists directly owned by a compound statement."""
+    out = [getattr(s, f) for f in ("body", "orelse", "finalbody") if isinstance(getattr(s, f, None), list)
+           and getattr(s, f) and isinstance(getattr(s, f)[0], ast.stmt)]
+    out += [h.body for h in getattr(s, "handlers", [])]
+    out += [c.body for c in getattr(s, "cases", [])]
+    return out
+
+
+def _fresh_list_before(fn: FuncNode, stmt: ast.stmt, a: str) -> bool:
+    """`a` is bound to an empty list by a statement of the suite holding `stmt` or of an enclosing suite,
+    executed before `stmt`, with no other mention of `a` in between (statements passed on the way)."""
+    def is_init(s: ast.stmt) -> bool:
+        return isinstance(s, (ast.Assign, ast.AnnAssign)) and s.value is not None \
+            and is_name(s.targets[0] if isinstance(s, ast.Assign) else s.target, a) \
+            and (isinstance(s.value, ast.List) and not s.value.elts or simple_call(s.value, ("list",), 0) is not None)
+
+    def chain(suite: list[ast.stmt]) -> list[tuple[list[ast.stmt], int]] | None:
+        """(suite, index) pairs from this suite down to the one holding `stmt`."""
+        for k, s in enumerate(suite):
+            if s is stmt:
+                return [(suite, k)]
+            for sub in _child_suites(s):
+                if any(x is stmt for y in sub for x in ast.walk(y)):
+                    inner = chain(sub)
+                    if inner is not None:
+                        return [(suite, k)] + inner
+        return None
+
+    for suite, k in reversed(chain(strip_doc(fn.body)) or []):     # innermost suite first
+        for j in range(k - 1, -1, -1):
+            if is_init(suite[j]):
+                return True
+            if any(is_name(n, a) for n in ast.walk(suite[j])):
+                return False
+    return False
 
 
 def fold_list_loops(node: FuncNode) -> None:
@@ -155,15 +230,10 @@ def fold_list_loops(node: FuncNode) -> None:
             live = [p for p, status in passes if status != "raise" and p.exit != "raise"]
             new: list[ast.stmt] = []
             for a in names:
-                init = [j for j in range(i - 1) if isinstance(suite[j], (ast.Assign, ast.AnnAssign))
-                        and is_name(suite[j].targets[0] if isinstance(suite[j], ast.Assign) else suite[j].target, a)  # type: ignore[union-attr]
-                        and isinstance(suite[j].value, ast.List) and not suite[j].value.elts]  # type: ignore[union-attr]
                 uses = [n for n in ast.walk(st) if is_name(n, a)]
                 n_app = sum(1 for n in ast.walk(st) if isinstance(n, ast.Call) and appends(n, a))
-                if not init or a in _stored(st) or len(uses) != n_app:
+                if a in _stored(st) or len(uses) != n_app or not _fresh_list_before(node, st, a):
                     continue
-                if any(is_name(n, a) for k in range(init[-1] + 1, i - 1) for n in ast.walk(suite[k])):
-                    continue                                # touched between the initialisation and the loop
                 adding, skipping, vals = [], [], []
                 for p in live:
                     hits = [c.node.args[0] for c in p.calls(lambda c: appends(c, a))]
@@ -397,10 +467,20 @@ def _replace(root: ast.AST, old: ast.AST, new: ast.AST) -> ast.AST:
 
 def project_records(e: ast.AST, records: dict[str, list[str]]) -> ast.AST:
     """`Rec(a=x, b=y).a` -> `x` for the record constructors in `records` (class name -> field order):
-    reading a field of a freshly built record is reading the argument it was built from."""
+    reading a field of a freshly built record is reading the argument it was built from; and
+    `getattr(x, "name")` with a literal name -> `x.name`."""
     class T(ast.NodeTransformer):
-        def visit_Attribute(self, node: ast.Attribute) -> ast.AST:  # noqa: N802
+        def visit_Call(self, node: ast.Call) -> ast.AST:  # noqa: N802
             self.generic_visit(node)
+            a = simple_call(node, ("getattr",), 2)      # getattr(x, "name") is x.name
+            if a is not None and isinstance(a[1], ast.Constant) and isinstance(a[1].value, str) and a[1].value.isidentifier():
+                return self.visit_Attribute(ast.copy_location(ast.Attribute(value=a[0], attr=a[1].value, ctx=ast.Load()), node),
+                                            visited=True)
+            return node
+
+        def visit_Attribute(self, node: ast.Attribute, visited: bool = False) -> ast.AST:  # noqa: N802
+            if not visited:
+                self.generic_visit(node)
             v = node.value
             if isinstance(v, ast.Call) and not any(isinstance(a, ast.Starred) for a in v.args) \
                     and all(k.arg is not None for k in v.keywords):
